@@ -198,8 +198,10 @@ func (e *env) once(cs *caseRec) *result {
 		kind := rt.ValidCut(v.Base, a.traceIDs(), cs.Req.Limit)
 		switch kind {
 		case "":
-		case "unselected-trace-returned", "selected-trace-missing", "duplicate-trace", "fewer-than-limit":
-			res.Kind = "trace-set-differs"
+		case "unselected-trace-returned", "duplicate-trace":
+			res.Kind = "trace-set-differs:extra"
+		case "selected-trace-missing", "fewer-than-limit":
+			res.Kind = "trace-set-differs:missing"
 		default:
 			res.Kind = "limit/" + kind
 		}
@@ -216,7 +218,16 @@ func (e *env) once(cs *caseRec) *result {
 				}
 				sort.Strings(got)
 				if strings.Join(got, ",") != strings.Join(want[t.TraceID], ",") {
-					res.Kind = "span-set-differs"
+					res.Kind = "span-set-differs:missing"
+					w := map[string]bool{}
+					for _, id := range want[t.TraceID] {
+						w[id] = true
+					}
+					for _, id := range got {
+						if !w[id] {
+							res.Kind = "span-set-differs:extra"
+						}
+					}
 					kind = fmt.Sprintf("trace %s: spans %v, expected %v", t.TraceID, got, want[t.TraceID])
 					break
 				}
@@ -253,22 +264,33 @@ func (e *env) eval(cs *caseRec) *result {
 	}
 	plain := cs.clone()
 	plain.Req.Complexity, plain.Req.Cluster = 0, false
-	if p := e.once(plain); p.Class == "violation" && p.Kind == res.Kind {
+	if p := e.once(plain); p.Class == "violation" {
+		// the plain path fails too: the script's shape is the input class (report what the plain path shows)
+		if p.Kind != res.Kind {
+			p.Desc += " [seen first on the complex/cluster path as " + res.Kind + "]"
+			return p
+		}
 		return res
 	}
+	where := "complex-processor"
 	if cs.Req.Complexity > 0 && cs.Req.Cluster {
 		half := cs.clone()
 		half.Req.Cluster = false
-		if p := e.once(half); p.Class == "violation" && p.Kind == res.Kind {
-			res.Sig += "@complex"
-		} else {
-			res.Sig += "@cluster"
+		if p := e.once(half); p.Class != "violation" {
+			where = "cluster"
 		}
-	} else if cs.Req.Complexity > 0 {
-		res.Sig += "@complex"
-	} else {
-		res.Sig += "@cluster"
+	} else if cs.Req.Cluster {
+		where = "cluster"
 	}
+	// the mismatch exists only on that path: the path is the call site, the script's shape matters little
+	group := "chain"
+	if len(cs.Script.Sels) == 1 {
+		group = "single"
+		if cs.Script.Sels[0].Expr == nil {
+			group = "{}"
+		}
+	}
+	res.Sig = where + ":" + group + "/" + res.Kind
 	return res
 }
 
@@ -465,6 +487,7 @@ func genCase(c *run.Ctx, idx int) *caseRec {
 	if r.Intn(100) < 70 {
 		plant(r, cs.DB, cs.Script, cs.Req.StartS*1e9, cs.Req.EndS*1e9)
 	}
+	aimAggregates(r, cs.DB, cs.Script, cs.Req.StartS*1e9, cs.Req.EndS*1e9)
 	if r.Intn(100) < 45 {
 		cs.Req.Limit = 1 + r.Intn(4)
 	} else {
@@ -622,9 +645,6 @@ func (e *env) tagsValues(cs *caseRec, st *stats) {
 			c.Undecided("chsql-unsupported (" + what + "): " + clip(a.Unsupported.Err, 80))
 		case a.Raise != nil:
 			sig := what + "/statement-raises/" + raiseClass(a.Raise)
-			if selClass(cs.Script.Sels[0], false) == "duration-only" {
-				sig = what + ":duration-only/statement-raises/" + raiseClass(a.Raise)
-			}
 			c.Cover("violation", sig, 1)
 			c.Violation(sig, fmt.Sprintf("%s with q=%s: ClickHouse rejects the statement: %s | SQL: %s", what, cs.Text, a.Raise.Err, clip(a.Raise.SQL, 900)),
 				map[string]any{"case": cs, "endpoint": what, "key": key, "statements": a.Stmts})
